@@ -21,6 +21,7 @@ type Ramp struct {
 	Reuse int   // how many items share one id inside a batch (>=1)
 	Sizes []int // pool of batch sizes (number of ids per batch)
 	Wide  bool  // several attributes per item (more dictionary columns touched)
+	Fresh []int // pool of "percent of fresh ids" per batch
 }
 
 // NewRamp draws the stream-level plan.
@@ -28,7 +29,12 @@ func NewRamp(t *rapid.T, big bool) *Ramp {
 	r := &Ramp{T: t}
 	r.Reuse = rapid.SampledFrom([]int{1, 1, 2, 5}).Draw(t, "reuse")
 	r.Sizes = []int{0, 1, 40, 130, 200, 300}
+	r.Fresh = []int{0, 10, 50, 100, 100}
 	if big {
+		// mostly fresh ids, so that two batches take a column past 65,535
+		// distinct values; the high-reuse regime (reuse 4, fresh 10) stays
+		// reachable for resets at the 16-bit limit
+		r.Fresh = []int{100, 100, 50, 10}
 		// first entries are favoured by rapid: make crossing 65,535 distinct
 		// values the common case - cumulatively (60000 + 40000 + ...), because a
 		// single batch must stay within the 65,535 parents of the id width
@@ -44,7 +50,7 @@ func (r *Ramp) ids() []int {
 	if max := 65000 / r.Reuse; n > max {
 		n = max // domain: at most 65,535 attribute-bearing parents per batch
 	}
-	fresh := rapid.SampledFrom([]int{0, 10, 50, 100, 100}).Draw(r.T, "freshpct")
+	fresh := rapid.SampledFrom(r.Fresh).Draw(r.T, "freshpct")
 	out := make([]int, 0, n)
 	if n > 2000 {
 		// large batches: avoid one draw per id; a block of fresh ids followed by reused ones
